@@ -210,7 +210,9 @@ theorem DInv_step (d : DictFn) (s s' : CN) (e : CEv) (h : DInv d s) (hc : CInv d
     cases hch : s.chan with
     | none =>
       simp only [CN.step, hch] at hs
-      split at hs <;> (cases hs; apply DInv_same d s _ h <;> simp [CN.rest])
+      split at hs
+      · cases hs; apply DInv_same d s _ h <;> simp [CN.rest]
+      · split at hs <;> (cases hs; apply DInv_same d s _ h <;> simp [CN.rest])
     | «open» => simp only [CN.step, hch] at hs; cases hs; exact h
     | closed => simp only [CN.step, hch] at hs; cases hs; exact h
   | handlerReturn =>
@@ -330,6 +332,14 @@ theorem Inv_run (d : DictFn) : ∀ (es : List CEv) (s s' : CN), CInv d s → DIn
 theorem Inv_reach (d : DictFn) (c : Bool) (es : List CEv) (s : CN) (hr : CN.run d { coal := c } es = some s) :
     CInv d s ∧ DInv d s :=
   Inv_run d es _ s (CInv_init d c) (DInv_init d c) hr
+
+theorem DInv_init' (d : DictFn) (m c : Bool) : DInv d { multi := m, coal := c } :=
+  ⟨⟨[], by simp [CN.rest]⟩, Cut_nil d⟩
+
+/-- ... of either kind -/
+theorem Inv_reach' (d : DictFn) (m c : Bool) (es : List CEv) (s : CN)
+    (hr : CN.run d { multi := m, coal := c } es = some s) : CInv d s ∧ DInv d s :=
+  Inv_run d es _ s (CInv_init' d m c) (DInv_init' d m c) hr
 
 /-- a quiescent, live connection with no handler running has handed over every complete
     message the peer delivered: nothing is stuck in the transport, the pipe or the buffer -/
